@@ -305,6 +305,8 @@ func c06Setup(t *rapid.T, cas *kit.Case) *c06State {
 		if spec.IBGP {
 			spec.NonClient = rapid.Bool().Draw(t, fmt.Sprintf("s%d_nonclient", i))
 		}
+		spec.PostPolicy = rapid.IntRange(0, 3).Draw(t, fmt.Sprintf("s%d_bmp_post_policy", i)) == 0
+		cas.ClassIf(spec.PostPolicy, "bmp_post_policy_session")
 		if !spec.IBGP {
 			// RFC 9234: roles exist on eBGP sessions only
 			spec.RoleOn = rapid.IntRange(0, 3).Draw(t, fmt.Sprintf("s%d_role_on", i)) != 0
